@@ -59,6 +59,10 @@ type gen struct {
 var words = []string{"alpha", "beta", "gamma", "delta", "x", "yz", "Hello World", "a,b,c", "été", "日本", "<b>&\"'</b>", "  pad  ", ""}
 
 func (g *gen) strLit() string {
+	if g.r.P(20) {
+		// literals with backslash escapes take the parser's unescaping path
+		return pick(g.r, []string{`'a\tb'`, `'q\"r'`, `'n\\m'`, `'x\ny'`, `"d\"q"`, `'it\'s'`, `'\{\{ raw \}\}'`, `'tab\there\tand\tthere'`})
+	}
 	w := pick(g.r, words)
 	w = strings.ReplaceAll(w, "'", "")
 	return "'" + w + "'"
